@@ -71,6 +71,10 @@ def rules(P, R, prefix="C05"):
             R.floor(prefix + ".K2", len(calls), 1, "call sites of the committing function" + tag)
             for (f, n), i in ordinal_keys(calls, lambda x: x[0].path):
                 ctx = env.ctx(f)
+                if len(call_args(n)) < 2:
+                    R.fail(prefix + ".K2", key(f, "commit(b0) only if b0.round + 1 == b1.round" + tag, i), n["sp"],
+                           "%s sends on the commit channel but is not called with the block it commits: no 2-chain condition can be established for it" % cf.path)
+                    continue
                 arg = ctx.term(call_args(n)[1])
                 pc = env.flow(f).pathcond(n)
                 ok = False
@@ -225,3 +229,5 @@ def check(P, R, tier):
     fold(R, P, "c04", ("C04.S1", "C04.S2"), "C05.K6", 30)
     # ... and a QC the node assembles itself (it is never re-verified locally) must be a real one: C19.G1/G2/G4
     fold(R, P, "c19", ("C19.G1", "C19.G2", "C19.G4"), "C05.K6", 8)
+    # ... and "a quorum" is N - f of the total stake for every committee: the threshold formula itself (C17)
+    fold(R, P, "c17", ("C17.O1", "C17.O2", "C17.O3", "C17.O4", "C17.O5", "C17.O6"), "C05.K6", 12)
